@@ -8,6 +8,7 @@ import (
 	"fmt"
 	"go/token"
 	"go/types"
+	"regexp"
 	"sort"
 	"strings"
 
@@ -198,6 +199,43 @@ func (e *bigEnv) bytesOf(v ssa.Value, at ssa.Instruction) *X {
 					if cnt == 1 {
 						return Op("copyN", K(uint64(n)), e.bytesOf(src, at))
 					}
+					// ... or exactly one copy into its tail: copy(buf[N-len(src):], src) — src left-padded to N bytes
+					if cnt == 0 {
+						var tailSrc ssa.Value
+						tails, others := 0, 0
+						for _, u := range *x.Referrers() {
+							switch sl := u.(type) {
+							case *ssa.Slice:
+								if sl.X != ssa.Value(x) {
+									continue
+								}
+								for _, u2 := range *sl.Referrers() {
+									y, ok := u2.(*ssa.Call)
+									if !ok {
+										continue
+									}
+									if bi, ok := y.Call.Value.(*ssa.Builtin); ok && bi.Name() == "copy" && y.Call.Args[0] == ssa.Value(sl) {
+										tails++
+										lo, ok := sl.Low.(*ssa.BinOp)
+										if sl.High == nil && ok && lo.Op == token.SUB {
+											if k, isK := constInt(lo.X); isK && k == n && isLenOf(lo.Y, func(v ssa.Value) bool { return lenBase(v) == lenBase(y.Call.Args[1]) }) {
+												tailSrc = y.Call.Args[1]
+											}
+										}
+									}
+								}
+							case *ssa.IndexAddr:
+								for _, u2 := range *sl.Referrers() {
+									if _, isSt := u2.(*ssa.Store); isSt {
+										others++
+									}
+								}
+							}
+						}
+						if tails == 1 && others == 0 && tailSrc != nil {
+							return Op("padleft", K(uint64(n)), e.bytesOf(tailSrc, at))
+						}
+					}
 				}
 			}
 		}
@@ -264,6 +302,11 @@ func (e *bigEnv) bytesOf(v ssa.Value, at ssa.Instruction) *X {
 			if cnt == 1 && tailSrc != nil {
 				return Op("padleft", e.plainIdx(x.Len, at), e.bytesOf(tailSrc, at))
 			}
+		}
+		// a fresh buffer every element of which is set to one value by a loop over the whole buffer is
+		// bytes.Repeat([]byte{v}, n)
+		if v := filledWith(x); v != nil {
+			return Op("call:bytes.Repeat", Op("lit", e.plain(v, at)), e.plainIdx(x.Len, at))
 		}
 		return Op("make", e.plainIdx(x.Len, at))
 	case *ssa.Phi:
@@ -521,4 +564,104 @@ func stripCopies(x *X) *X {
 		}
 	}
 	return out
+}
+
+// normSliceString: textual normal form of nested constant slices — slice(slice(b,0xA,_),0xC,0xD) is
+// slice(b,0xA+0xC,0xA+0xD); slice(slice(b,0xA,_),_,0xD) is slice(b,0xA,0xA+0xD); a leading empty make in a concat
+// is dropped. Applied to both sides before two layouts are compared.
+func normSliceString(s string) string {
+	re := regexp.MustCompile(`slice\(slice\(([a-zA-Z0-9_.]+),(0x[0-9a-f]+|_),_\),(0x[0-9a-f]+|_),(0x[0-9a-f]+|_)\)`)
+	hex := func(t string) (uint64, bool) {
+		if t == "_" {
+			return 0, true
+		}
+		var v uint64
+		_, err := fmt.Sscanf(t, "0x%x", &v)
+		return v, err == nil
+	}
+	for i := 0; i < 8; i++ {
+		changed := false
+		s = re.ReplaceAllStringFunc(s, func(m string) string {
+			g := re.FindStringSubmatch(m)
+			a, ok1 := hex(g[2])
+			lo, ok2 := hex(g[3])
+			hi, ok3 := hex(g[4])
+			if !ok1 || !ok2 || !ok3 {
+				return m
+			}
+			changed = true
+			nlo := fmt.Sprintf("0x%x", a+lo)
+			if a+lo == 0 {
+				nlo = "_"
+			}
+			nhi := "_"
+			if g[4] != "_" {
+				nhi = fmt.Sprintf("0x%x", a+hi)
+			}
+			return "slice(" + g[1] + "," + nlo + "," + nhi + ")"
+		})
+		if !changed {
+			break
+		}
+	}
+	s = strings.ReplaceAll(s, "concat(make(0x0),", "concat(")
+	return s
+}
+
+// filledWith: the make'd slice is written only by one loop `for i := range buf { buf[i] = v }` (or the counted form
+// over len(buf) / the make length) with v not depending on i: returns v
+func filledWith(x *ssa.MakeSlice) ssa.Value {
+	var val ssa.Value
+	stores := 0
+	for _, u := range *x.Referrers() {
+		switch y := u.(type) {
+		case *ssa.IndexAddr:
+			for _, u2 := range *y.Referrers() {
+				st, ok := u2.(*ssa.Store)
+				if !ok || st.Addr != ssa.Value(y) {
+					continue
+				}
+				stores++
+				// index: range index (phi(-1)+1) or counted phi(0,+1), compared with len(buf) or the make length
+				var phi *ssa.Phi
+				idx := y.Index
+				if add, ok := idx.(*ssa.BinOp); ok && add.Op == token.ADD {
+					if k, isK := constInt(add.Y); isK && k == 1 {
+						phi, _ = add.X.(*ssa.Phi)
+					}
+				} else if p, ok := idx.(*ssa.Phi); ok {
+					phi = p
+				}
+				if phi == nil {
+					return nil
+				}
+				iv, ok := inductionOf(phi)
+				if !ok || iv.step != 1 || !((iv.init == -1 && idx != ssa.Value(phi)) || (iv.init == 0 && idx == ssa.Value(phi))) {
+					return nil
+				}
+				ifi, ok := lastIf(phi.Block())
+				if !ok {
+					return nil
+				}
+				cmp, ok := ifi.Cond.(*ssa.BinOp)
+				if !ok || cmp.Op != token.LSS || cmp.X != idx {
+					return nil
+				}
+				if !(cmp.Y == x.Len || isLenOf(cmp.Y, func(v ssa.Value) bool { return v == ssa.Value(x) })) {
+					return nil
+				}
+				val = st.Val
+			}
+		case *ssa.Call:
+			if bi, ok := y.Call.Value.(*ssa.Builtin); ok && (bi.Name() == "copy" || bi.Name() == "append") && len(y.Call.Args) > 0 && y.Call.Args[0] == ssa.Value(x) {
+				return nil
+			}
+		case *ssa.Slice:
+			return nil
+		}
+	}
+	if stores != 1 {
+		return nil
+	}
+	return val
 }
